@@ -2,7 +2,7 @@
 import itertools
 import re
 
-from tools.vlib.coqfmt import Err, z, coq_bool
+from tools.vlib.coqfmt import Err, z, coq_bool, coq_list
 
 ID = "C25"
 TITLE = "Merged short-circuit conditions route control as the original branches did"
@@ -10,27 +10,38 @@ PROPS = "C25"
 LEVEL = "proof"
 DESIGN_REF = "DESIGN.md section 5, C25"
 TECHNIQUE = ("Coq theorems by structural induction on the condition tree (negation is an involution and complements the "
-             "printed truth value, for any nesting and any pending negations) and by case analysis on the four merge cases "
-             "(routing preserved for every assignment, whatever the operands are); about a hand-written model of "
-             "Condition.neg, of the print-time negation of Writer.visit_short_circuit_condition, of the merge cases of "
-             "short_circuit_struct and of the negate-and-swap step of Writer.visit_cond_node; model tied to the source by "
-             "running the real merge and the real Writer on every chain of two and three conditional nodes and evaluating "
-             "the printed text under every truth assignment")
+             "printed truth value, for any nesting and any pending negations), by case analysis on the four merge cases, and "
+             "by strong induction on the length of walks for the merge on graphs (a simulation in both directions between "
+             "the graph before and after a merge); about a hand-written model of Condition.neg, of the print-time negation of "
+             "Writer.visit_short_circuit_condition, of short_circuit_struct as a whole (graph with handler marks, live flags "
+             "and edge order, the precondition entered_from_one_block, MergeNodes with its re-pointing of the visible "
+             "predecessors, post-order driver, passes until nothing changes) and of the negate-and-swap step of "
+             "Writer.visit_cond_node; model tied to the source by running the model's driver and the real "
+             "short_circuit_struct on the same chains and comparing the merged structures they leave behind")
 LEVEL_TEXT = ("Unbounded proof: for every condition tree (any depth, any mix of && and ||, any pending negations) and every "
               "assignment of the comparisons, the negated tree prints a condition with the complementary truth value, and "
               "negating twice gives the tree back; printing by 'negate the first operand in place, then print' has the "
-              "truth value of the declarative reading; each of the four merge cases, applied to any two conditional nodes "
-              "with any operands and any successors, routes every assignment to the successor the original two nodes "
-              "route it to; negating a node and swapping its successors does not change the routing. The graph "
-              "bookkeeping of short_circuit_struct (post order, predecessor counts, node_map) is not modelled: the merged "
-              "graphs are taken from the real code on every run and their printed conditions are evaluated.")
-LEVEL_NOTE = ("Trusted: Coq kernel; coq/Dad/ShortCircuitModel.v as a rendering of Condition/ShortCircuitBlock.neg, of the "
-              "meaning of a printed condition (Java's !, &&, ||, with the parentheses the writer emits), of the merge cases "
-              "and of visit_cond_node's negation; the harness tools/props/c25.py (graph construction, extraction of the "
-              "Condition trees, a small evaluator of the printed text).")
+              "truth value of the declarative reading; negating a node and swapping its successors does not change the "
+              "routing; and ON GRAPHS: for every graph of conditional blocks (any shape, loops and shared successors "
+              "included, blocks of exception handlers, blocks already merged away that are still pointed at), whichever of "
+              "the four merge cases applies at a block under the precondition the code tests, every walk from every block "
+              "reaches the same exit before and after the merge and the merged graph has no further walks; with the "
+              "precondition of the code before the repair db98cb62 the statement is false (witness evaluated in the "
+              "kernel). The driver (post order, the if/elif of the cases, passes until nothing changes) is part of the "
+              "model: for every chain of two and three conditions exhaustively, and for random chains of up to five with "
+              "any pattern of handler blocks, the structure it computes is the structure the real code leaves behind, "
+              "and the printed conditions are evaluated under every assignment. Not proved: that the invariants the merge "
+              "theorem needs (pointers of graph nodes are edges, the new identifier is fresh) are kept from one merge of "
+              "the driver to the next - they hold for the initial graph by construction.")
+LEVEL_NOTE = ("Trusted: Coq kernel; coq/Dad/ShortCircuitModel.v, ShortCircuitGraph.v, ShortCircuitDriver.v as a rendering of "
+              "Condition/ShortCircuitBlock.neg, of the meaning of a printed condition (Java's !, &&, ||, with the parentheses "
+              "the writer emits), of short_circuit_struct / MergeNodes / Graph.preds / Graph.post_order and of "
+              "visit_cond_node's negation; the harness tools/props/c25.py (graph construction, extraction of the Condition "
+              "trees, a small evaluator of the printed text; blocks removed from the graph but still pointed at by a "
+              "handler block are followed as they stand, their comparison - shared with the merged block - negated once).")
 TRUSTED = ["hand-written model coq/Dad/ShortCircuitModel.v", "correspondence harness tools/props/c25.py (evaluator of the printed condition text)"]
 
-COQ_HEADER = "Require Import V.Dad.ShortCircuitModel."
+COQ_HEADER = "Require Import V.Dad.ShortCircuitModel V.Dad.ShortCircuitGraph V.Dad.ShortCircuitDriver."
 NEXITS = 3
 
 
@@ -63,6 +74,23 @@ def gen(rng, tier, ctx):
     cases = [(2, s) for s in two] + [(3, s) for s in three]
     # the same chains inside an exception handler (every block in_catch, or every block but the first)
     cases += [(2, s, k) for s in two for k in (1, 2)] + [(3, s, rng.choice((1, 2))) for s in three[::3]]
+    # longer chains (four and five conditions, random DAGs) and any pattern of blocks inside handlers
+    for _ in range(400 if tier == "thorough" else 60):
+        n = rng.choice((3, 4, 4, 5))
+        spec = []
+        for i in range(n):
+            later = list(range(i + 1, n)) + ["X%d" % k for k in range(NEXITS)]
+            spec.append([rng.choice(later if rng.random() < 0.9 else ["X0", "X1"]), rng.choice(later)])
+        for j in range(1, n):                       # every block gets a predecessor among the earlier ones
+            if not any(j in spec[i] for i in range(j)):
+                spec[rng.randrange(j)][rng.randrange(2)] = j
+        flags = 0
+        if rng.random() < 0.6:                      # as construct() marks them: the entry never; a handler entry (random); a block all of whose predecessors are marked
+            flags = [False] + [rng.random() < 0.3 for _ in range(n - 1)]
+            for j in range(1, n):
+                if all(flags[i] for i in range(j) if j in spec[i]):
+                    flags[j] = True
+        cases.append((n, spec, flags))
     return cases
 
 
@@ -91,7 +119,9 @@ def build(spec, in_catch=0):
         g.add_edge(conds[i], node(f))
     g.entry = conds[0]
     for k, x in enumerate(conds + list(exits.values())):
-        if in_catch == 1 or (in_catch == 2 and k > 0):
+        if isinstance(in_catch, list):
+            x.in_catch = k < len(in_catch) and in_catch[k]
+        elif in_catch == 1 or (in_catch == 2 and k > 0):
             x.in_catch = True
     g.compute_rpo()
     short_circuit_struct(g, g.immediate_dominators(), {})
@@ -131,12 +161,25 @@ def evaluate(text, env):
 
 def routes(g, n, negate):
     from androguard.decompiler.writer import Writer
+    from androguard.decompiler.basic_blocks import ShortCircuitBlock
     table = {}
+    negated = set()           # blocks whose comparison has been negated in place, directly or as part of a merged condition
+
+    def parts(x):
+        out = [x]
+        if isinstance(x, ShortCircuitBlock):
+            out += parts(x.cond.cond1) + parts(x.cond.cond2)
+        return out
+
+    def neg_swap(x):
+        if x not in negated:      # a removed block shares its comparison with the merged block it went into: negate once
+            x.neg()
+            negated.update(parts(x))
+        x.true, x.false = x.false, x.true
     for x in list(g.nodes):
         if x.type.is_cond:
             if negate:
-                x.neg()
-                x.true, x.false = x.false, x.true
+                neg_swap(x)
     struct = [cond_tree(x) for x in (cond_nodes_swapped(g.entry, []) if negate else cond_nodes(g.entry, []))]
     for x in list(g.nodes):
         if x.type.is_cond:
@@ -147,6 +190,14 @@ def routes(g, n, negate):
     for env in envs(n):
         cur = g.entry
         while cur.type.is_cond:
+            if cur not in table:
+                # a block that was merged away and removed from the graph, still pointed at by a block of an exception
+                # handler (MergeNodes re-points the visible predecessors only): it is printed and followed as it stands
+                if negate:
+                    neg_swap(cur)
+                w = Writer(g, None)
+                cur.visit_cond(w)
+                table[cur] = (str(w), cur.true, cur.false)
             text, t, f = table[cur]
             cur = t if evaluate(text, env) else f
         out.append(int(cur.name[1:]))
@@ -241,7 +292,7 @@ def oracle(case, res):
 
 
 def stats(cases, results):
-    d = {"chains": len(cases), "inside_a_catch_handler": sum(1 for c in cases if len(c) > 2), "two_node": sum(1 for c in cases if c[0] == 2), "three_node": sum(1 for c in cases if c[0] == 3),
+    d = {"chains": len(cases), "inside_a_catch_handler": sum(1 for c in cases if len(c) > 2), "two_node": sum(1 for c in cases if c[0] == 2), "three_node": sum(1 for c in cases if c[0] == 3), "four_and_five_node": sum(1 for c in cases if c[0] > 3),
          "merged_blocks": 0, "nested_conditions": 0, "with_pending_negation": 0, "writer_statements": 0}
 
     def walk(c):
@@ -259,6 +310,14 @@ def stats(cases, results):
     return d
 
 
-STREAMS = [{"name": "chains", "gen": gen, "impl": impl, "canon": canon, "coq_header": COQ_HEADER, "coq_type": "Z * cfg",
-            "coq_input": lambda c: None, "coq_input_r": lambda c, r: "(%s, %s)" % (z(c[0]), coq_cfg(r["tree"])), "coq_obs": "obs_sc",
-            "model_vo": "Dad/ShortCircuitModel.vo", "pinned": False, "oracle": oracle, "stats": stats, "shard": 60}]
+def coq_chain(case):
+    """the chain itself: per block (true target, false target, in a handler?); exits are 100 + k"""
+    n, spec = case[:2]
+    ic = case[2] if len(case) > 2 else 0
+    tg = lambda t: z(t) if isinstance(t, int) else z(100 + int(t[1:]))
+    return "(%s, %s)" % (z(n), coq_list(["((%s, %s), %s)" % (tg(t), tg(f), coq_bool(ic[i] if isinstance(ic, list) else (ic == 1 or (ic == 2 and i > 0)))) for i, (t, f) in enumerate(spec)]))
+
+
+STREAMS = [{"name": "chains", "gen": gen, "impl": impl, "canon": canon, "coq_header": COQ_HEADER, "coq_type": "Z * list ((Z * Z) * bool)",
+            "coq_input": coq_chain, "coq_obs": "obs_struct",
+            "model_vo": "Dad/ShortCircuitDriver.vo", "pinned": False, "oracle": oracle, "stats": stats, "shard": 60}]
